@@ -83,6 +83,12 @@ CHECKS = {
   text="Sequential: BFS to depth 4 (6 thorough) over {CreateLocation, AddFact, RemFact, GetFact, SearchFacts, AddRule, ProcessEvent, ClearLocation} on two locations and clock += 2ms; every history runs simultaneously on a cache-less core.Location and on six sys.System worlds (LocationTTL never/1ms/forever x CheckExistence off/on, recording storage, virtual clock), both states: all answers must agree, refused requests to uncreated locations must leave no storage pair and no cache entry. Concurrent: under the controlled scheduler, concurrent FIRST requests for one location (TTL forever/1ms) must call Storage.Load exactly once, and 2-3 clients x 1-2 requests on one location (TTL never/1ms) must be linearizable against sequential runs through an identically configured System, stored pairs included (deviation bound 1 quick / 2 thorough).",
   note="Two engines decide this property; bin/run.sh runs both and folds the evidence. Errors are compared by class; removing an id that is not stored is unspecified.",
   design="2/C17"),
+ "C18": dict(
+  engine="GEN",
+  technique="bounded-exhaustive differential enumeration of logical requests x encodings x URI spellings through service.HTTPService.ServeHTTP against the direct call on a twin sys.System (result, status and resulting state compared)",
+  text="Every logical request of a bounded language - 19 /api/loc operations (facts add/get/rem/search/query/take/replace, rules add/rem/list/enable/disable/enabled, events/ingest, parents get/set, admin size/clear/create) x ids, locations, facts, patterns, rules, events and queries chosen to need URL, JSON and YAML escaping, on a populated and an empty system - is sent in every encoding that can express it (JSON body, /api/json envelope, query string, form body, YAML body, /api/yaml envelope, batch element, location in the query plus JSON body) and in four URI spellings (/api/loc, /loc, /v1.0/loc, /2/api/loc), each on a fresh service world, and directly to a twin System with the same history: HTTP 200 iff the direct call succeeds (400 otherwise), the body is JSON and the result extracted from it equals the direct result, and the location's memory + storage equal the twin's. Ill-formed variants (each required parameter dropped, each parameter with 2-7 wrong types including malformed JSON text in forms, unknown URIs) must give 400 and leave the state untouched. Both states.",
+  note="About 22,500 HTTP requests for 1,000 logical requests. Ids are always given (generated ids differ between worlds); take/replace are compared with the documented search-remove-add composition; a refused replace may already have taken.",
+  design="2/C18"),
  "C19": dict(
   engine="GEN+SEQ",
   technique="exhaustive enumeration of the product protection state x caller context x operation x set-up history on the real Location (directly and via sys.System), privileged before/after snapshot and unprotected-twin oracle",
